@@ -202,6 +202,14 @@ let run_case line =
       out id "no_merge" (if no_merge cr then "1" else "0");
       let trie = trie_of cr in
       out id "trie" (opt ser_dfa trie);
+      (* the language of the MODEL's trie as a pattern (unminimised expression, printed without colour and
+         surrogates): the class of known finding K1 is "the over-matched string is already accepted by the trie" *)
+      if not (no_merge cr) then begin
+        let cp_ = { c with f_colour = false; f_sur = false; f_no_start = false; f_no_end = false } in
+        out id "trie_pat" (match trie with
+            | Some t -> opt (fun e -> ser_str (regexp_str is_digit_engine cp_ e)) (expr_from c t)
+            | None -> "!ERR")
+      end;
       let mn = (match trie with Some t -> minimize t | None -> None) in
       out id "min" (opt ser_dfa mn);
       let e1 = (match mn with Some d -> expr_from c d | None -> None) in
